@@ -304,6 +304,9 @@ func checkC13(p *Prog, r *Report) {
 	c13Headers(p, r, "C13.headers")
 	// the four date formats are encodings of the same dates: sibling agreement of the format arms (shared with C12.R6)
 	c12ForwardArms(p, r, "C13.date-arms")
+	// the three weather layouts meet in one normalisation: it must treat every record of every loaded year alike,
+	// whatever the shape of the buffer a layout fills (one year per call, or all years at once) — shared with C04.R4
+	c04Transform(p, r, "C13.weather-normalisation")
 }
 
 func short(k string) string { return strings.TrimPrefix(k, "hermes.") }
